@@ -7,6 +7,7 @@ import (
 	"math/big"
 
 	abci "github.com/tendermint/tendermint/abci/types"
+	"github.com/tendermint/tendermint/libs/kv"
 
 	"github.com/Oneledger/protocol/data/balance"
 	"github.com/Oneledger/protocol/data/keys"
@@ -96,3 +97,71 @@ func SV_C13_split() {
 	sv.Cover(pool.Sign() > 0, "with-delegation")
 	sv.Observe("pulled", pulled.BigInt())
 }
+
+// SV_C13_delegation_split: handleDelegationRewards, the delegators' part of a
+// block reward.
+//
+// sv:bounds total block reward T symbolic (0 <= T < 2^100); validator power V symbolic (1 <= V < 2^40 whole units); two delegators whose active amounts come from the table {1:1, 3:1, 1:0, 7:2} (concrete, so that each share is a division by a constant), the delegation power being their sum; any proposer
+// sv:outside symbolic delegation amounts (a product of two unknowns divided by a third: solver unknown); more delegators
+// sv:goal the delegators' new reward claims sum to at most the amount scheduled for delegators (reward share minus commission), commission and proposer cut are the configured fractions, and delegators' claims + commission + proposer cut never exceed the delegation pool's share of T
+func SV_C13_delegation_split() {
+	app := svNewApp()
+	svGenesis(app, svDefaultState())
+	ctx := &app.Context
+	amounts := [][2]int64{{1, 1}, {3, 1}, {1, 0}, {7, 2}}[sv.Choice("delegations", 4)]
+	ds := ctx.netwkDelegators.Deleg.WithState(ctx.deliver)
+	dp := int64(0)
+	for d := 0; d < 2; d++ {
+		c := svCoin(balance.NewAmountFromBigInt(new(big.Int).Mul(big.NewInt(amounts[d]), svWei)))
+		ds.WithPrefix(netwkDeleg.ActiveType).Set(svAddr(d), &c)
+		dp += amounts[d]
+	}
+	svCommitBlock(app)
+	svFreshDeliver(app)
+	T := svNonNeg("T")
+	sv.Assume(T.Cmp(new(big.Int).Lsh(big.NewInt(1), 100)) < 0)
+	V := sv.Int64("validatorPower")
+	sv.Assume(V >= 1 && V < 1<<40)
+	delegPower := new(big.Int).Mul(big.NewInt(dp), svWei)
+	totalPower := new(big.Int).Add(new(big.Int).Mul(big.NewInt(V), svWei), delegPower)
+	rw := func() []*big.Int {
+		var out []*big.Int
+		rs := app.Context.netwkDelegators.WithState(app.Context.deliver).Rewards
+		for d := 0; d < 2; d++ {
+			b, err := rs.GetRewardsBalance(svAddr(d))
+			if err != nil {
+				sv.Unreachable("reward balance")
+			}
+			out = append(out, b.BigInt())
+		}
+		return out
+	}
+	before := rw()
+	resp := handleDelegationRewards(&netwkDeleg.DelegationRewardCtx{TotalRewards: balance.NewAmountFromBigInt(T), DelegationPower: delegPower,
+		TotalPower: totalPower, Height: 7, ProposerAddress: svParty_(0).Addr}, &app.Context, map[string]kv.Pair{})
+	after := rw()
+	claims := new(big.Int)
+	for d := 0; d < 2; d++ {
+		g := new(big.Int).Sub(after[d], before[d])
+		sv.Assert(g.Sign() >= 0, "delegator-reward-non-negative")
+		claims.Add(claims, g)
+	}
+	sv.Assert(claims.Cmp(resp.DelegationRewards.BigInt()) <= 0, "delegators'-claims-within-the-amount-scheduled-for-them")
+	// the pool's share of T
+	share := new(big.Int).Mul(T, delegPower)
+	share.Div(share, totalPower)
+	all := new(big.Int).Add(claims, resp.Commission.BigInt())
+	all.Add(all, resp.ProposerReward.BigInt())
+	sv.Assert(all.Cmp(share) <= 0, "delegation-side-never-exceeds-the-pool's-share-of-the-block-reward")
+	sv.Observe("claims", claims)
+	sv.Cover(claims.Sign() > 0, "something-claimed")
+}
+
+// SV_C02_delegation_reward_split: the same exploration as
+// SV_C13_delegation_split, registered for C02: reward claims beyond the amount
+// scheduled for delegators are unbacked value.
+//
+// sv:bounds as SV_C13_delegation_split
+// sv:outside as SV_C13_delegation_split
+// sv:goal as SV_C13_delegation_split
+func SV_C02_delegation_reward_split() { SV_C13_delegation_split() }
